@@ -17,11 +17,12 @@ import copy
 import json
 
 from harness import lib_c17 as lib
+from harness import lib_c14_hist as hist
 from harness.core import err_kind, jdump
 
 PID = 'C17'
 TITLE = 'Lazy expressions evaluate to what the eager expression would'
-LEAN_MODULES = ['MlModel.Properties.C17']
+LEAN_MODULES = ['MlModel.Properties.C17', 'MlModel.Properties.C17State']
 TRUSTED = [
     'modelled, not verified: collections.OrderedDict (association list, oldest first), cloudpickle '
     '(structural copy; library functions and classes travel by reference), CPython hashing of ints/str/tuples '
@@ -414,6 +415,13 @@ def gen_cases(ctx):
       yield {'kind': 'lazy', 'level': 'B', 'fn_max': fn_real, 'obj_max': obj_real, 'ops': ops}
   for i in range(800 if quick else 10000):
     yield gen_lru_case(rng, 'lru' if i % 2 else 'wrap', rng.randrange(0, 5), rng.randrange(1, 25))
+  # lazy expressions over MUTABLE objects (harness/lib_c14_hist.py; model: Model/RemoteState.lean)
+  for name, ops, flags in hist.fixed_hist_ops():
+    for fn_max in (128, 0, 1, 2):
+      yield {'kind': 'hist', 'fn_max': fn_max, 'pickle': fn_max == 2, 'ops': ops}
+  for i in range(900 if quick else 12000):
+    yield {'kind': 'hist', 'fn_max': rng.choice([128, 0, 1, 2, 3]), 'pickle': rng.random() < 0.3,
+           'ops': hist.gen_hist_ops(rng, rng.randrange(4, 17), flags=i % 4 != 0)}
 
 
 # ----------------------------------------------------------------------------- real code
@@ -609,7 +617,33 @@ def run_wrap(case):
   return {'ops': out}
 
 
+def run_hist(case):
+  """A history of lazy expressions over mutable objects: lazy_fns.maybe_make vs ordinary Python (+ textbook LRU)."""
+  from ml_metrics._src.chainables import lazy_fns as lf
+  fn_cache = lf.LazyFn.result_.cache_info.__self__
+  saved = fn_cache.maxsize
+  lf.clear_cache()
+  lf.clear_object()
+  fn_cache.maxsize = case['fn_max']
+  try:
+    lazy = hist.renumber(hist.run_lazy(case['ops'], lf, None, None, c17_err, pickle=case.get('pickle', False)))
+  finally:
+    fn_cache.maxsize = saved
+    lf.clear_cache()
+    lf.clear_object()
+  return {'hist': lazy, 'hist_twin': hist.renumber(hist.run_twin(case['ops'], case['fn_max'], c17_err))}
+
+
+def oracle_hist(case, obs):
+  """Materialising = eager evaluation on the objects as they are now; a cache_result link evaluates once and returns
+  the identical object until the cache is cleared or evicts it (textbook LRU of the bound)."""
+  return hist.first_difference(case['ops'], obs['hist'], obs['hist_twin'], 'maybe_make',
+                               'eager evaluation on the same objects')
+
+
 def run_impl(case):
+  if case['kind'] == 'hist':
+    return run_hist(case)
   if case['kind'] == 'lazy':
     return run_lazy(case)
   if case['kind'] == 'lru':
@@ -620,6 +654,8 @@ def run_impl(case):
 # ----------------------------------------------------------------------------- model
 
 def model_requests(case):
+  if case['kind'] == 'hist':
+    return [hist.model_request(case)]
   if case['kind'] == 'lazy':
     return [dict(model='lazy', fn_max=case['fn_max'], obj_max=case['obj_max'], ops=case['ops'])]
   return [dict(model='lru', maxsize=case['maxsize'], ops=case['ops'])]
@@ -627,6 +663,8 @@ def model_requests(case):
 
 def model_obs(case, resps):
   r = resps[0]
+  if case['kind'] == 'hist':
+    return {'hist': hist.renumber(r['obs'])}
   if case['kind'] == 'lazy':
     out, refs = [], []
     for ob in r['ops']:
@@ -649,6 +687,8 @@ def model_obs(case, resps):
 
 
 def compare(impl, model):
+  if 'hist' in impl:
+    return hist.compare_model([{}] * len(impl['hist']), impl['hist'], model['hist'], 'maybe_make')
   a, b = impl['ops'], model['ops']
   if len(a) != len(b):
     return 'different number of observations'
@@ -927,6 +967,8 @@ def oracle_wrap(case, obs):
 
 
 def oracle(case, obs):
+  if case['kind'] == 'hist':
+    return oracle_hist(case, obs)
   if case['kind'] == 'lazy':
     return oracle_lazy(case, obs)
   if case['kind'] == 'lru':
@@ -955,6 +997,14 @@ def _stat(key, sub, n=1):
 
 def collect(case, obs):
   _stat('kind', case['kind'] + (':' + case.get('level', '?') if case['kind'] == 'lazy' else ''))
+  if case['kind'] == 'hist':
+    for b in hist.branches(case['ops'], obs['hist_twin']):
+      _stat('branch', 'hist: ' + b)
+    for op in case['ops']:
+      _stat('hist op', op['op'] + ('' if hist.plain_op(op) else ' (flags)'))
+    _stat('hist fn_max', case['fn_max'])
+    _stat('hist pickled', bool(case.get('pickle')))
+    return
   if case['kind'] != 'lazy':
     _stat(case['kind'] + ' maxsize', case['maxsize'])
     _stat(case['kind'] + ' ops', len(case['ops']) // 5 * 5)
@@ -991,6 +1041,7 @@ def extra(ctx):
       ctx.count(k, sub, n)
   need = ['fn cache hit', 'fn cache miss', 'object deref hit', 'object deref miss', 'fn cache eviction',
           'identical object returned again']
+  need += ['hist: ' + b for b in hist.NEED_PLAIN + hist.NEED_FLAGS]
   missing = [b for b in need if not STATS.get('branch', {}).get(b)]
   if missing:
     from harness.core import InfraError
@@ -999,6 +1050,9 @@ def extra(ctx):
 
 def nontrivial(case, obs):
   collect(case, obs)
+  if case['kind'] == 'hist':
+    return any(b.startswith('re-read after mutation') or b.startswith('next after') or b.startswith('cached link')
+               for b in hist.branches(case['ops'], obs['hist_twin']))
   if case['kind'] == 'lazy':
     makes = [op for op in case['ops'] if op['op'] == 'make']
     return len(makes) >= 2 and any(has_flag(op['e']) for op in makes)
@@ -1013,6 +1067,15 @@ def finding(case, what):
 # ----------------------------------------------------------------------------- search helpers
 
 def neighbours(case, rng):
+  if case['kind'] == 'hist':
+    for i in range(len(case['ops'])):
+      c = hist.drop_op(case, i)
+      if c is not None and c['ops']:
+        yield c
+    for _ in range(300):
+      yield {'kind': 'hist', 'fn_max': rng.choice([128, 0, 1]), 'pickle': False,
+             'ops': hist.gen_hist_ops(rng, rng.randrange(4, 12), flags=True)}
+    return
   if case['kind'] != 'lazy':
     for _ in range(300):
       yield gen_lru_case(rng, case['kind'], rng.randrange(0, 5), rng.randrange(1, 25))
@@ -1054,6 +1117,8 @@ def _res_refs(x):
 
 
 def shrink(case, fails):
+  if case['kind'] == 'hist':
+    return hist.shrink(case, fails)
   cur = case
   changed = True
   while changed:
